@@ -127,12 +127,11 @@ func layerConvert(layerConvertFunc func(estargz.Compression) converter.ConvertFu
 		if err != nil {
 			return desc2, err
 		}
-		var layerDgst digest.Digest
-		if desc2 != nil {
-			layerDgst = desc2.Digest
-		} else {
-			layerDgst = desc.Digest // no conversion happened
+		if desc2 == nil {
+			// no conversion happened (e.g. not a layer): no TOC was produced for this descriptor
+			return nil, nil
 		}
+		layerDgst := desc2.Digest
 		dgst, size, err := writeTOCTo(ctx, c, cs)
 		if err != nil {
 			return nil, err
